@@ -135,7 +135,7 @@ func GenUniverse(c *Ctx, o UniOpts) *Universe {
 			if i == 0 && !rootHasBase {
 				base, _ = url.Parse(d.URI)
 			}
-		case k == 1:
+		case k == 1 || k == 3:
 			id := pick(c, rootIDPool)
 			if !used[id] {
 				used[id] = true
@@ -143,7 +143,7 @@ func GenUniverse(c *Ctx, o UniOpts) *Universe {
 				base, _ = url.Parse(id)
 				d.Canon = id
 			}
-		case k == 2 && base.IsAbs() && base.Opaque == "":
+		case (k == 2 || k == 4) && base.IsAbs() && base.Opaque == "":
 			rel := pick(c, []string{"canon-rel.json", "c/rel2.json", "../rel3.json"}) + fmt.Sprint(i)
 			nb := base.ResolveReference(mustParse(rel))
 			if !used[nb.String()] {
@@ -246,6 +246,28 @@ func GenUniverse(c *Ctx, o UniOpts) *Universe {
 			}
 		}
 	}
+	// A document whose root $id is relative can be named by its canonical URI
+	// only once it has been loaded through its retrieval URI. Within one hop
+	// the m-slot is resolved before the n-slot (children are traversed in sorted
+	// key order), so: m by retrieval URI, n by canonical URI.
+	for _, n := range u.Nodes {
+		m, nn := n.Next[1], n.Next[0]
+		if m == nil || nn == nil || m.To == nil || nn.To == nil || m.To.Doc == n.Doc {
+			continue
+		}
+		d := m.To.Doc
+		if !d.RelID || nn.To.Res != d.Root || m.To.Res != d.Root || !strings.Contains(m.Form, "retrieval-alias") {
+			continue
+		}
+		if c.W(2) == 0 {
+			frag := ""
+			if i := strings.IndexByte(nn.Text, '#'); i >= 0 {
+				frag = nn.Text[i:]
+			}
+			nn.Text = d.Canon + frag
+			nn.Form = "abs+canonical-id-after-retrieval:" + nn.Form[strings.LastIndexByte(nn.Form, ':')+1:]
+		}
+	}
 	if o.Dangling {
 		u.plantDangling(c)
 	}
@@ -304,6 +326,11 @@ func fragEscape(f string) string {
 // uriForms returns the ways of writing the absolute URI target relative to base.
 func uriForms(base, target *url.URL) map[string]string {
 	forms := map[string]string{"abs": target.String()}
+	if target.Opaque == "" && target.Host != "" && len(target.Path) > 1 {
+		// absolute references with dot segments, which RFC 3986 removes
+		forms["abs-dotdot"] = target.Scheme + "://" + target.Host + "/zz/.." + target.EscapedPath()
+		forms["abs-dot"] = target.Scheme + "://" + target.Host + "/." + target.EscapedPath()
+	}
 	if !base.IsAbs() || base.Opaque != "" || target.Opaque != "" {
 		return forms
 	}
@@ -536,7 +563,11 @@ func (u *Universe) render() {
 func (u *Universe) Describe() map[string]any {
 	docs := []any{}
 	for _, d := range u.Docs {
-		docs = append(docs, map[string]any{"uri": d.URI, "canonical": d.Canon, "doc": json.RawMessage(d.Text)})
+		var body any = json.RawMessage(d.Text)
+		if !json.Valid([]byte(d.Text)) {
+			body = "(not JSON) " + d.Text
+		}
+		docs = append(docs, map[string]any{"uri": d.URI, "canonical": d.Canon, "doc": body})
 	}
 	return map[string]any{"base_uri": u.BaseURI, "draft7": u.Draft7, "documents": docs}
 }
